@@ -159,6 +159,9 @@ class World(object):
         self._last_uuid = None
         self.loop = SimLoop(tie_rng=random.Random(H(sched_seed, 'tie')),
                             step_cap=step_cap)
+        # equal-due timers: same iteration (libev batch, 3 worlds in 4) or
+        # one per iteration; both are schedules the real loop produces
+        self.loop.batch_timers = H(sched_seed, 'batch-timers') % 4 != 0
         self.hub = SimHub(loop=self.loop)
         self.hub.world = self
         set_hub(self.hub)
